@@ -438,10 +438,24 @@ def isElided : Frame → Bool
   | .elided _ => true
   | _ => false
 
-/-- `out` is an admissible rendering of the original root-first stack `orig` -/
+def isTLabel : Frame → Bool
+  | .tlabel _ => true
+  | _ => false
+
+/-- depth of the call stack that `orig` renders: with `--per-cpu-threads` the copies on the CPU tracks carry
+the *thread's label* in front of the call chain; that label names the thread and is not a frame of the call
+stack ("call stacks shallower than the depth limit reach the profile unchanged" is about the call chain —
+the property's quantifier explicitly includes stacks "with an extra per-CPU label frame") -/
+def callDepth (orig : List Frame) : Nat := (orig.filter (fun f => !isTLabel f)).length
+
+theorem callDepth_le (orig : List Frame) : callDepth orig ≤ orig.length := List.length_filter_le _ _
+
+/-- `out` is an admissible rendering of the original root-first stack `orig`: unchanged (and within 501
+frames) when the call stack is shallower than 500 frames; otherwise 200 root frames, one placeholder stating
+exactly the number of removed frames, 100..300 leaf frames, at most 501 frames in all -/
 def elisionOk (orig out : List Frame) : Bool :=
   let n := orig.length
-  if n < 500 then out == orig
+  if callDepth orig < 500 then out == orig && decide (out.length ≤ 501)
   else
     match out.findIdx? isElided with
     | none => false
